@@ -446,7 +446,8 @@ def config_json(cfg, root=True, d=None):
         c["omit-signing"] = True
     if cfg["mode"] != "omit-nokeys":
         c["key-name"] = node_key(cfg)
-        c["key-id"] = hex(node_kid(cfg))
+        # every spelling int(text, 0) understands, one per node: decimal, 0X.., 0o.., 0b.., 0x..
+        c["key-id"] = [str, lambda v: "0X%X" % v, oct, bin, hex][(cfg["id"] + 4) % 5 if cfg["id"] else 0](node_kid(cfg))
     if cfg.get("alg_cfg", "inherit") != "inherit":
         c["alg"] = cfg["alg_cfg"]
     if cfg.get("action"):
